@@ -31,7 +31,8 @@ EXPECTED_PROBES = ['ping_between_fragments', 'many_pings_one_read',
                    'violation_behind_pings', 'compression_negotiated',
                    'threaded_close_vs_pong', 'refused_close_call_then_pings',
                    'two_connections_interleaved',
-                   'unread_data_queued_at_failed_pong']
+                   'unread_data_queued_at_failed_pong',
+                   'ping_while_other_session_stalled']
 
 
 TSLOT = 3000
@@ -56,7 +57,8 @@ def plan(tier):
     return [('seeded', 12000 if tier == 'quick' else 250000),
             ('threaded_sweep', len(TBASES) * TSLOT * 2),
             ('threaded_random', 300 if tier == 'quick' else 30000),
-            ('pair', 800 if tier == 'quick' else 30000)]
+            ('pair', 800 if tier == 'quick' else 30000),
+            ('two_sessions', 200 if tier == 'quick' else 10000)]
 
 
 def _ping(rng):
@@ -134,6 +136,14 @@ def _execute_threaded(case):
 def make_case(family, i, rng, tier):
     if family.startswith('threaded'):
         return _threaded_case(family, i, rng)
+    if family == 'two_sessions':
+        # ThreadSim, two WebSocket objects with their own event-loop threads:
+        # a send on one is stuck in sendall while the other receives a Ping
+        # (scenario of C09's two_sessions family)
+        from . import C09
+        c = C09._two_sessions_case(rng)
+        c['fail'] = 'ping'
+        return c
     if family == 'pair':
         cs = []
         for _ in range(2):
@@ -260,6 +270,11 @@ def build(case, with_fault=True):
 def execute(case):
     if case.get('threaded'):
         return _execute_threaded(case)
+    if case.get('two_sessions'):
+        from . import C09
+        r = C09._execute_two(case)
+        r.stats['probe:ping_while_other_session_stalled'] += 1
+        return r
     if 'pair' in case:
         return _execute_pair(case)
     res = Result()
